@@ -42,6 +42,10 @@ impl DataSubmessage {
         let reader_id = EntityId::try_read_from_bytes(&mut slice, endianness)?;
         let writer_id = EntityId::try_read_from_bytes(&mut slice, endianness)?;
         let writer_sn = SequenceNumber::try_read_from_bytes(&mut slice, endianness)?;
+        // RTPS 8.3.7.2.3 Validity; the last number cannot be followed by another change
+        if writer_sn <= 0 || writer_sn == SequenceNumber::MAX {
+            return Err(RtpsMessageError::InvalidData);
+        }
 
         let end_position = if submessage_header.submessage_length() == 0 {
             data.len()
